@@ -48,8 +48,8 @@ func classify(code uint32, codespace string) string {
 	switch {
 	case code == 0:
 		return "ok"
-	case codespace == "sdk" && code == 111222:
-		return "panic"
+	case code == 111222 && (codespace == "undefined" || codespace == "sdk"):
+		return "panic" // errorsmod.ErrPanic is registered in the codespace "undefined"
 	}
 	return "err"
 }
